@@ -183,6 +183,20 @@ func judge(c crcCase, stream, reply []byte, o cli.Outcome) harness.Result {
 	var excR *packet.ErrorResponseRTU
 	isExc := errors.As(o.Err, &excT) || errors.As(o.Err, &excR)
 	desc := fmt.Sprintf("valid reply %x corrupted (%s) to %x, delivered with cuts %v; client consumed %x", reply, c.Corr.Kind, stream, c.Cuts, consumed)
+	// a client that has a complete, CRC-consistent frame when a transport read ends may return it: it cannot know that more will come.
+	// That holds only at the end of a delivery; a client that takes part of what one read could have given it and ignores the rest
+	// has not looked at the reply it was sent.
+	atBoundary := o.Consumed == len(stream)
+	sum := 0
+	for _, n := range gen.ChunksFromCuts(len(stream), c.Cuts) {
+		sum += n
+		if sum == o.Consumed {
+			atBoundary = true
+		}
+	}
+	if (isExc || o.Err == nil) && !atBoundary {
+		return harness.Fail("the corrupted reply arrived in deliveries ending at %v of %d bytes; the client took %d bytes, stopped in the middle of a delivery and reported the part as a reply: %s", c.Cuts, len(stream), o.Consumed, desc)
+	}
 	if isExc {
 		if !(len(consumed) == 5 && consumed[1]&0x80 != 0 && crcOK(consumed)) {
 			return harness.Fail("a reply with inconsistent CRC was surfaced as a device exception (%v): %s", o.Err, desc)
@@ -506,4 +520,33 @@ func TestBitFlipSweep(t *testing.T) {
 		}
 	}
 	harness.Exhaustive("bad-crc-reply", "every single-bit flip of one reply per function (+ its exception reply), delivered whole and with single cuts (thorough: every single cut)", n)
+}
+
+// TestReplySizes: replies of every length 5..256 bytes (FC1 with 8*(L-5) coils and FC3 where the length is odd) with surplus bytes
+// behind them (an extension of 1..3 bytes that leaves the whole inconsistent), delivered in one read and cut at the end of the valid
+// part: the sizes at which implementations switch buffers are not special to the protocol.
+func TestReplySizes(t *testing.T) {
+	idx := 0
+	for L := 6; L <= 256; L++ {
+		idx++
+		if !harness.Mine(idx) {
+			continue
+		}
+		var r spec.Req
+		switch {
+		case L >= 7 && L%2 == 1 && (L-5)/2 <= 125:
+			r = spec.Req{FC: 3, Unit: 3, Addr: 10, Qty: uint16((L - 5) / 2)}
+		case 8*(L-5) <= 2000:
+			r = spec.Req{FC: 1, Unit: 3, Addr: 10, Qty: uint16(8 * (L - 5))}
+		default:
+			continue
+		}
+		for _, extra := range [][]byte{{0x00}, {0x5A, 0xA5}, {1, 2, 3}} {
+			for _, cuts := range [][]int{nil, {L}} {
+				if !chkCRC.Eval(t, crcCase{Kind: cli.RTUNet, Req: r, DevSeed: uint64(L) + harness.Seed(), Corr: corruption{Kind: "extend", Data: extra}, Cuts: cuts, EOF: 2}) {
+					return
+				}
+			}
+		}
+	}
 }
